@@ -285,7 +285,10 @@ CLAIMED['C05'] = dict(
          'parameters and extra attributes) loads to exactly that value: recognition, savorize, the attribute '
          'loop, retagging, tag stripping, flatten_mapping / construct_mapping, the missing / unknown / type '
          'checks and the constructor call compose to the identity; with a worked example whose hypotheses are '
-         'discharged (the represented node computed by the model of the representers). '
+         'discharged (the represented node computed by the model of the representers). Closed form for '
+         'plain data (C05_plain_data_roundtrip): for strings of any content, integers, booleans, None, lists '
+         'and string-keyed dicts nested to any depth the description is derived from the model of the '
+         'representers, so load(represent v, T) = v holds with no precondition, for every class model. '
          'The text layer is assumption A-text. On the real code load(dumps(v)) must be '
          'structurally equal for generated values of unambiguous class models (adversarial strings, '
          'non-finite floats, dates, paths, enums, string-like keys, extras, shared sub-objects, '
